@@ -164,56 +164,38 @@ Print Assumptions C15_cancel_pinned_partial.
 
 (* --- counts other than 1 (complete_next(count) of Up/Down with a numeric
    argument, the menu's mouse scrolling) -----------------------------------------
-   From a selection i that is not the last, complete_next(count) selects
-   min(n-1, i+count) - it never wraps in one call - whenever i + count >= 0,
-   that is for every count >= 0 and for small negative ones (which move
-   backward) ... *)
+   For EVERY count (zero and negative included: Meta-minus), from a selection i
+   that is not the last, complete_next(count) selects i + count clamped to
+   0..n-1 - it never wraps within one call and never raises ... *)
 Theorem C15_next_count : forall c t p ls cs i count w,
   0 <= p <= len t ->
-  cst (reach c t p ls) = Some cs -> cs_idx cs = Some i -> i <> len (cs_comps cs) - 1 -> 0 <= i + count ->
+  cst (reach c t p ls) = Some cs -> cs_idx cs = Some i -> i <> len (cs_comps cs) - 1 ->
   exists s', step (reach c t p ls) (CompleteNext count w) = (s', 0) /\
-    cst s' = Some (cs_with_idx cs (Some (Z.min (len (cs_comps cs) - 1) (i + count)))) /\
-    ntp (cs_with_idx cs (Some (Z.min (len (cs_comps cs) - 1) (i + count)))) = Some (text s', cur s').
+    cst s' = Some (cs_with_idx cs (Some (Z.max 0 (Z.min (len (cs_comps cs) - 1) (i + count))))) /\
+    ntp (cs_with_idx cs (Some (Z.max 0 (Z.min (len (cs_comps cs) - 1) (i + count))))) = Some (text s', cur s').
 Proof. exact reach_next_count. Qed.
 Print Assumptions C15_next_count.
 
-(* ... and outside that precondition it raises AssertionError (status 1, from
-   go_to_index) and leaves buffer and menu exactly as they were. *)
-Theorem C15_next_count_outside : forall c t p ls cs i count w,
-  0 <= p <= len t ->
-  cst (reach c t p ls) = Some cs -> cs_idx cs = Some i -> i <> len (cs_comps cs) - 1 -> i + count < 0 ->
-  step (reach c t p ls) (CompleteNext count w) = (reach c t p ls, 1).
-Proof. exact reach_next_count_outside. Qed.
-Print Assumptions C15_next_count_outside.
-
-(* complete_previous(count) from a selection i > 0 selects max(0, i-count)
-   whenever i - count < n ... *)
+(* ... and complete_previous(count) from a selection i > 0 selects i - count
+   clamped to 0..n-1. *)
 Theorem C15_prev_count : forall c t p ls cs i count w,
   0 <= p <= len t ->
-  cst (reach c t p ls) = Some cs -> cs_idx cs = Some i -> i <> 0 -> i - count < len (cs_comps cs) ->
+  cst (reach c t p ls) = Some cs -> cs_idx cs = Some i -> i <> 0 ->
   exists s', step (reach c t p ls) (CompletePrev count w) = (s', 0) /\
-    cst s' = Some (cs_with_idx cs (Some (Z.max 0 (i - count)))) /\
-    ntp (cs_with_idx cs (Some (Z.max 0 (i - count)))) = Some (text s', cur s').
+    cst s' = Some (cs_with_idx cs (Some (Z.max 0 (Z.min (len (cs_comps cs) - 1) (i - count))))) /\
+    ntp (cs_with_idx cs (Some (Z.max 0 (Z.min (len (cs_comps cs) - 1) (i - count))))) = Some (text s', cur s').
 Proof. exact reach_prev_count. Qed.
 Print Assumptions C15_prev_count.
 
-(* ... and raises, changing nothing, otherwise (a negative count that would
-   run past the end). *)
-Theorem C15_prev_count_outside : forall c t p ls cs i count w,
-  0 <= p <= len t ->
-  cst (reach c t p ls) = Some cs -> cs_idx cs = Some i -> i <> 0 -> len (cs_comps cs) <= i - count ->
-  step (reach c t p ls) (CompletePrev count w) = (reach c t p ls, 1).
-Proof. exact reach_prev_count_outside. Qed.
-Print Assumptions C15_prev_count_outside.
-
-(* So "complete_next never raises on a consistent menu" is false: finding
-   C15-F2 (Esc - Down with the menu open). *)
-Theorem C15_negative_count_refuted :
+(* Before /repo commit c676c2a the index was clamped on one side only and a
+   negative count raised AssertionError from go_to_index (findings C15-F2 /
+   C15-F3, repaired): complete_next as it was, on a reachable consistent menu. *)
+Theorem C15_negative_count_pinned_refuted :
   exists c t p ls count, 0 <= p <= len t /\
     (exists cs, cst (reach c t p ls) = Some cs /\ ntp cs = Some (text (reach c t p ls), cur (reach c t p ls))) /\
-    step (reach c t p ls) (CompleteNext count false) = (reach c t p ls, 1).
-Proof. exact negative_count_raises. Qed.
-Print Assumptions C15_negative_count_refuted.
+    complete_next_pinned (reach c t p ls) count false = (reach c t p ls, 1).
+Proof. exact negative_count_pinned_raises. Qed.
+Print Assumptions C15_negative_count_pinned_refuted.
 
 (* --- reset(): the next prompt ------------------------------------------------------
    reset() clears menu, verdict and suggestion but leaves the coroutines of the
